@@ -336,22 +336,25 @@ def fromRoutesRule (routes : List Rule) (q : Req) (draw : Rule → Nat) : Action
 
 /-! ### Use-time observers -/
 
-/-- `StatusCodeUpdate::get_status_code`. -/
-def StatusCodeUpdate.getStatusCode (u : StatusCodeUpdate) (c : Nat) : Nat × Option RuleId :=
-  if c == 0 && u.onResponseStatusCodes.isEmpty then (u.statusCode, u.ruleId)
-  else if u.excludeResponseStatusCodes && !u.onResponseStatusCodes.contains c then (u.statusCode, u.ruleId)
-  else if !u.excludeResponseStatusCodes && u.onResponseStatusCodes.any (fun v => v == c) then
-    (u.statusCode, u.ruleId)
-  else if c != 0 then (u.fallbackStatusCode, u.fallbackRuleId)
+/-- `StatusCodeUpdate::get_status_code`: the body is TRANSLATED from the source on every run
+(`Rio.Consts.statusGetStatusCode`, tools/consts.d/action.py); at the time of writing it reads
+```
+  if c == 0 && codes.isEmpty then (statusCode, ruleId)
+  else if excl && !codes.contains c then (statusCode, ruleId)
+  else if !excl && codes.any (fun v => v == c) then (statusCode, ruleId)
+  else if c != 0 then (fallbackStatusCode, fallbackRuleId)
   else (0, none)
+``` -/
+def StatusCodeUpdate.getStatusCode (u : StatusCodeUpdate) (c : Nat) : Nat × Option RuleId :=
+  Rio.Consts.statusGetStatusCode u.statusCode u.onResponseStatusCodes u.excludeResponseStatusCodes
+    u.fallbackStatusCode u.ruleId u.fallbackRuleId c
 
-/-- `LogOverride::get_log_override` (the third component `handled` only feeds the unit trace). -/
+/-- `LogOverride::get_log_override` (translated from the source as well: `Rio.Consts.logGetLogOverride`);
+the third component `handled` only feeds the unit trace and is dropped here. -/
 def LogOverride.getLogOverride (l : LogOverride) (c : Nat) : Option Bool × Option RuleId :=
-  if l.onResponseStatusCodes.isEmpty then (some l.logOverride, l.ruleId)
-  else if l.excludeResponseStatusCodes && !l.onResponseStatusCodes.contains c then (some l.logOverride, l.ruleId)
-  else if !l.excludeResponseStatusCodes && l.onResponseStatusCodes.any (fun v => v == c) then
-    (some l.logOverride, l.ruleId)
-  else (l.fallbackLogOverride, l.fallbackRuleId)
+  let r := Rio.Consts.logGetLogOverride l.logOverride l.onResponseStatusCodes
+    l.excludeResponseStatusCodes l.fallbackLogOverride l.ruleId l.fallbackRuleId c
+  (r.1, r.2.1)
 
 /-- `Action::get_status_code(response_status_code, None)`. -/
 def Action.getStatusCode (a : Action) (c : Nat) : Nat × Action :=
